@@ -109,6 +109,9 @@ CASES = {
     "try around two lookups": "def f(k: str) -> str:\n    try:\n        a = TBL[k]\n        b = TBL[k + 'x']\n    except KeyError:\n        raise ValueError('no')\n    return a.hexdigest()\n",
     "try with other exception": "def f(k: str) -> str:\n    try:\n        a = TBL[k]\n    except ValueError:\n        raise ValueError('no')\n    return a.hexdigest()\n",
     "try with call inside": "def f(k: str) -> str:\n    try:\n        a = TBL[k]\n        b = mk()\n    except KeyError:\n        raise ValueError('no')\n    return a.hexdigest()\n",
+    "try return with call inside": "def f(k: str) -> str:\n    try:\n        return wrap(TBL[k])\n    except KeyError:\n        raise ValueError('no')\n",
+    "try return not last": "def f(k: str) -> 'Hasher':\n    try:\n        return TBL[k]\n        a = 1\n    except KeyError:\n        raise ValueError('no')\n",
+    "try return ok (control)": "def f(k: str) -> 'Hasher':\n    try:\n        return TBL[k]\n    except KeyError:\n        raise ValueError('no {}'.format(k))\n",
     "try handler that swallows": "def f(k: str) -> str:\n    try:\n        a = TBL[k]\n    except KeyError:\n        a = mk()\n    return a.hexdigest()\n",
     "mutating a parameter object": "def f(h: 'Hasher', c: bytes) -> str:\n    h.update(c)\n    return h.hexdigest()\n",
     "read loop ok (control)": "def f(data: 'stream') -> str:\n    h = mk()\n    while True:\n        c = data.read(h.block_size)\n        if not c:\n            break\n        h.update(c)\n    return h.hexdigest()\n",
@@ -123,7 +126,7 @@ SPEC = {
     "opaque": {"mk": {"ret": "Hasher"}},
     "dicts": {"TBL": {"coq": "py_tbl", "key": "str", "value": "Hasher"}},
 }
-EXPECT_OK = {"list[:-1], str[0], int(bool) ok (control)", "read loop ok (control)", "walrus read loop ok (control)", "iter read loop ok (control)",
+EXPECT_OK = {"try return ok (control)", "list[:-1], str[0], int(bool) ok (control)", "read loop ok (control)", "walrus read loop ok (control)", "iter read loop ok (control)",
              "for accumulate ok (control)", "try lookup ok (control)", "truthiness ok (control)", "nested raiser ok (control)", "rsplit ok (control)", "raise in assigning branch", "format ok (control)", "generator in join (control)"}
 
 
